@@ -30,7 +30,7 @@ BodyTab ==
    obj2   |-> [text |-> "{\"n\": \"s\"}",        kind |-> "schema", root |-> "object", rtype |-> "object",  uses |-> {}, enums |-> {}, keys |-> {"n"}],
    objref |-> [text |-> "{\"r\": @t1}",          kind |-> "schema", root |-> "object", rtype |-> "object",  uses |-> {"@t1"}, enums |-> {}, keys |-> {"r"}],
    objr2  |-> [text |-> "{\"r\": @t2}",          kind |-> "schema", root |-> "object", rtype |-> "object",  uses |-> {"@t2"}, enums |-> {}, keys |-> {"r"}],
-   objen  |-> [text |-> "{\"e\": 1 // {enum: @e1}\n}", kind |-> "schema", root |-> "object", rtype |-> "object", uses |-> {}, enums |-> {"@e1"}, keys |-> {"e"}],
+   objen  |-> [text |-> "{\n  \"e\": 1 // {enum: @e1}\n}", kind |-> "schema", root |-> "object", rtype |-> "object", uses |-> {}, enums |-> {"@e1"}, keys |-> {"e"}],
    arr    |-> [text |-> "[1]",                   kind |-> "schema", root |-> "array",  rtype |-> "array",   uses |-> {}, enums |-> {}, keys |-> {}],
    str    |-> [text |-> "\"s\"",                 kind |-> "schema", root |-> "string", rtype |-> "string",  uses |-> {}, enums |-> {}, keys |-> {}],
    ref1   |-> [text |-> "@t1",                   kind |-> "schema", root |-> "reference", rtype |-> "@t1",  uses |-> {"@t1"}, enums |-> {}, keys |-> {}],
